@@ -652,7 +652,7 @@ def wakeup_cover(ctx, L, rule="R-WAKEUP-COVER"):
 def finish_now(ctx, L, rule="R-FINISH-NOW"):
     """a send session that the peer has acknowledged (or aborted) is handed to the job thread for removal immediately:
     its deadline is set to `now` - any later time keeps the pair busy and the next send_pgn to that peer is refused"""
-    done = [L.const("state", "EOM_ACK_RECEIVED")] if L.fd else [L.const("state", "TRANSMISSION_FINISHED")]
+    done = [L.const("state", "EOM_ACK_RECEIVED"), L.const("state", "TRANSMISSION_FINISHED")] if L.fd else [L.const("state", "TRANSMISSION_FINISHED")]
     n = 0
     for f in (L.cm, L.dt):
         seen = set()
